@@ -167,12 +167,17 @@ func trunc(b []byte) []byte {
 
 func main() {
 	h = hlib.Init("C04")
-	var rc valgrid.Val
+	var rc Case
 	if h.ReplayCase(&rc) {
-		run(rc)
-		runPkg(rc)
+		if len(rc.Pair) == 2 {
+			runHist(rc)
+		} else {
+			run(rc.Val)
+			runPkg(rc.Val)
+		}
 		h.ReplayReport()
 	}
+	histLeg()
 	valgrid.Enumerate(h, func(v valgrid.Val) {
 		run(v)
 		h.Sample(func() interface{} { return v })
